@@ -178,6 +178,41 @@ def run(ctx) -> None:
     r2.instance(gm.short)
     kp2 = gm.params[0]
     GMS = Sem(idx, gm)
+    # the three directions are independent: inside the loop over the directions every value that is read must have been computed in the same
+    # pass (a name assigned only on some path of the body would carry the previous direction's value into this one)
+    for lp_ in [x for x in ast.walk(gm.node) if isinstance(x, ast.For)]:
+        if not (isinstance(lp_.iter, ast.Call) and call_name(lp_.iter) == "range" and len(lp_.iter.args) == 1 and norm(lp_.iter.args[0]) == "3"):
+            continue
+        assigned_ = {}
+        for b_ in lp_.body:
+            for st_ in ast.walk(b_):
+                if isinstance(st_, ast.Assign):
+                    for t_ in st_.targets:
+                        if isinstance(t_, ast.Name):
+                            assigned_.setdefault(t_.id, []).append(st_)
+        first_ = GMS.cfg.node(lp_.body[0])
+        reported_ = set()
+        for b_ in lp_.body:
+            for st_ in ast.walk(b_):
+                if not isinstance(st_, ast.stmt):
+                    continue
+                hdr_ = [st_.test] if isinstance(st_, (ast.If, ast.While)) else [st_.iter] if isinstance(st_, ast.For) else [st_] if not isinstance(st_, (ast.With, ast.Try)) else []
+                try:
+                    use_ = GMS.cfg.node(st_)
+                except Exception:
+                    continue
+                for h_ in hdr_:
+                    for nm_ in ast.walk(h_):
+                        if not (isinstance(nm_, ast.Name) and isinstance(nm_.ctx, ast.Load) and nm_.id in assigned_ and nm_.id not in reported_):
+                            continue
+                        defs_ = {GMS.cfg.node(d_) for d_ in assigned_[nm_.id]} - {use_}
+                        if first_ in defs_:
+                            continue                      # assigned by the first statement of every pass
+                        if use_ == first_ or GMS.cfg.reachable(first_, [use_], avoiding=list(defs_)):
+                            reported_.add(nm_.id)
+                            r2.violation(gm, st_, f"`{nm_.id}` is read in `{norm1(st_, 70)}` on a path of the loop over the three directions on which this pass has "
+                                         f"not assigned it: the value of the previous direction (or the one set before the loop) is used, so a direction "
+                                         f"with a single k-point inherits the mesh size of the direction before it")
     site = None
     for h in [gm] + reachable_helpers(idx, gm):
         for c_ in ast.walk(h.node):
